@@ -47,12 +47,14 @@ pub struct Profile {
     pub errors: usize,
     /// weight (0..100) of statements calling typed / re-entering host functions
     pub host: usize,
+    /// weight (0..100) of loops that allocate garbage (strings, tables, closures) with bounded live data
+    pub garbage: usize,
 }
 
 impl Profile {
     pub fn named(name: &str) -> Profile {
         let base = Profile { nfns: 3, max_depth: 3, stmts: 6, closures: 2, tables: 4, mixed_coercions: 2, while_decl: false,
-                             natives: true, many_globals: false, stdlib: 0, safe_arrays: true, errors: 0, host: 0 };
+                             natives: true, many_globals: false, stdlib: 0, safe_arrays: true, errors: 0, host: 0, garbage: 0 };
         match name {
             "basic" => Profile { nfns: 2, closures: 0, tables: 2, ..base },
             "calls" => Profile { nfns: 5, closures: 1, stmts: 5, ..base },
@@ -63,6 +65,7 @@ impl Profile {
             "globals" => Profile { many_globals: true, nfns: 2, ..base },
             "whiledecl" => Profile { while_decl: true, closures: 0, ..base },
             "arrays" => Profile { safe_arrays: false, tables: 8, ..base },
+            "alloc" => Profile { garbage: 30, tables: 6, closures: 3, nfns: 2, stdlib: 3, ..base },
             "host" => Profile { host: 35, nfns: 3, closures: 4, stmts: 7, ..base },
             "errors" => Profile { errors: 6, nfns: 3, closures: 3, ..base },
             "std" => Profile { stdlib: 8, tables: 6, closures: 3, ..base },
@@ -407,7 +410,33 @@ impl<'a> Gen<'a> {
         vec![setg(&g, native(&format!("call{k}"), args))]
     }
 
+    /// repeat K { garbage }: every iteration allocates objects that are unreachable afterwards
+    fn garbage_loop(&mut self, cx: &mut Ctx) -> Vec<C> {
+        let k = [20, 60, 150, 400][self.rng.below(4)];
+        let mut body = vec![];
+        let i = self.fresh("i");
+        for _ in 0..1 + self.rng.below(3) {
+            let g = format!("g{}", self.rng.below(5));
+            // Array cards leave one stray nil per element on the value stack until the function
+            // returns; long loops only use cards that leave nothing behind
+            let pick = if k > 20 { [0, 1, 3, 5][self.rng.below(4)] } else { self.rng.below(6) };
+            body.push(match pick {
+                0 => setg(&g, strlit("garbage string that is long enough to matter")),
+                1 => setg(&g, card("CreateTable", vec![])),
+                2 => setg(&g, card("Array", vec![read(&i), strlit("x"), card("CreateTable", vec![])])),
+                3 => setg(&g, closure(&[], vec![card("Return", vec![read(&i)])])),
+                4 => setg(&g, card("Get", vec![card("Array", vec![int(1), int(2)]), int(0)])),
+                _ => setg(&g, card("Len", vec![strlit("temporary")])),
+            });
+        }
+        let _ = cx;
+        vec![repeat(&i, int(k), block(body))]
+    }
+
     pub fn stmt(&mut self, cx: &mut Ctx, depth: usize, can_declare: bool) -> Vec<C> {
+        if self.prof.garbage > 0 && cx.loop_depth == 0 && cx.cond_depth == 0 && self.rng.below(100) < self.prof.garbage {
+            return self.garbage_loop(cx);
+        }
         if self.prof.host > 0 && self.rng.below(100) < self.prof.host {
             return self.host_stmt(cx);
         }
